@@ -136,6 +136,11 @@ impl ShortTermCredentialClient {
         }
     }
 
+    #[cfg(rustun_verif)]
+    pub fn verif_state(&self) -> (Option<Integrity>, Vec<TransactionId>) {
+        (self.integrity, self.validator.verif_markers())
+    }
+
     pub fn add_attributes(&self, attributes: &mut StunAttributes) {
         self.prepare_request_or_indication(attributes);
     }
